@@ -23,6 +23,7 @@ import (
 	"sort"
 	"strings"
 	"sync"
+	"sync/atomic"
 	"time"
 
 	"github.com/chrislusf/seaweedfs/weed/pb/volume_server_pb"
@@ -57,8 +58,8 @@ var datas = map[string][]byte{
 	"L": bytes.Repeat([]byte("0123456789abcdef"), 200),
 	"M": bytes.Repeat([]byte("fedcba9876543210"), 200),   // same length as L
 	"c": []byte("CCCC-data-c"),                           // same length as a
-	"H": bytes.Repeat([]byte("HHHHhhhh01234567"), 16000), // 256000 bytes: makes a throttled compaction last
-	"I": bytes.Repeat([]byte("IIIIiiii76543210"), 16000), // same length as H
+	"H": bytes.Repeat([]byte("HHHHhhhh01234567"), 45000), // 720000 bytes: makes a throttled compaction last
+	"I": bytes.Repeat([]byte("IIIIiiii76543210"), 45000), // same length as H
 }
 
 var cookies = map[string]uint32{"c1": 0x11111111, "c2": 0x22222222, "c3": 0x33333333}
@@ -291,13 +292,15 @@ func (r *runner) runExec(ex []tr.Ev) []tr.Ev {
 				} else {
 					// "during": operations issued while the (throttled) compaction RPC is running
 					var dwg sync.WaitGroup
+					var compacting atomic.Bool
 					for _, d := range tr.List(e["during"]) {
 						dop := tr.Copy(d.(map[string]interface{}))
 						during = append(during, dop)
 						dwg.Add(1)
 						go func() {
 							defer dwg.Done()
-							time.Sleep(time.Duration(20+tr.I(dop, "delay")) * time.Millisecond)
+							time.Sleep(time.Duration(tr.I(dop, "delay")) * time.Millisecond)
+							defer func() { dop["overlap"] = compacting.Load() }()
 							switch tr.S(dop, "ev") {
 							case "write":
 								r.write(vid, dop)
@@ -307,10 +310,12 @@ func (r *runner) runExec(ex []tr.Ev) []tr.Ev {
 						}()
 					}
 					t0 := time.Now()
+					compacting.Store(true)
 					e["res"] = r.admin(func(c volume_server_pb.VolumeServerClient) error {
 						_, err := c.VacuumVolumeCompact(ctx, &volume_server_pb.VacuumVolumeCompactRequest{VolumeId: vid})
 						return err
 					})
+					compacting.Store(false)
 					e["ms"] = int(time.Since(t0) / time.Millisecond)
 					dwg.Wait()
 					delete(e, "during")
